@@ -7,6 +7,9 @@
 (*   Inner = Err   one of them returned an error            -> status -1   *)
 (*   Inner = Panic something unwound                        -> status -2   *)
 (* Output is produced only through a slice of exactly cap bytes.           *)
+(* What is demanded of a call does not depend on the calls before it in    *)
+(* the same process (a wrapper keeps nothing between calls - in particular *)
+(* nothing a caught panic could leave in a bad state).                     *)
 (***************************************************************************)
 EXTENDS Naturals, Integers, Sequences, FiniteSets
 
@@ -22,4 +25,9 @@ Demand(status, unwound, rs_set, rs, guards, valid, cap, needed, bound, goodInput
   /\ cap < needed => status < 0                          \* undersized buffer
   /\ (goodInput /\ cap >= bound) => status = 0           \* large enough buffer, good input: must succeed
   /\ ~goodInput => status < 0
+\* a frame around a container that was damaged after it was written: the content is outside the
+\* property (garbage in), the caller's memory and the reporting discipline are not
+DemandDamaged(status, unwound, rs_set, rs, guards, cap) ==
+  /\ ~unwound /\ StatusOk(status) /\ guards
+  /\ status = 0 => (rs_set /\ rs <= cap)
 =============================================================================
